@@ -503,6 +503,80 @@ func (e *vAofEnv) aofReadHistory(r *rand.Rand, h *vAofHistory, secondEvery int) 
 	}
 }
 
+// aofFailedFlush: a Flush whose write of the record buffer FAILS (the record file's descriptor is swapped for a read-only one
+// for that single call) must drop the buffered records AND their buffered values (aof.go: windex = 0, dwindex = 0); the records
+// written afterwards through the same AofFile must pair with their own values.
+func (e *vAofEnv) aofFailedFlush(r *rand.Rand, it int) {
+	now := int64(1700000000 + r.Intn(1000000))
+	cfg := []uint{128, 192, 4096}[it%3]
+	mk := func(n int, base int) []vAofRec {
+		var o []vAofRec
+		for i := 0; i < n; i++ {
+			rec := vAofGenRec(r, now, base+i, i%2 == 0)
+			rec.buf[57], rec.buf[58], rec.buf[59], rec.buf[60] = 0, 0, 0, 0 // never expired
+			o = append(o, rec)
+		}
+		return o
+	}
+	recsA := mk(1, 0) // one record + value: stays in the buffers (buffer of two or more records)
+	recsB := mk(2+r.Intn(3), 10)
+	dir := e.freshDir()
+	defer os.RemoveAll(dir)
+	name := "append.aof.1"
+	path := filepath.Join(dir, name)
+	f := NewAofFile(e.aof, path, os.O_WRONLY, int(cfg))
+	if err := f.Open(); err != nil {
+		panic(err)
+	}
+	l := NewAofLock()
+	put := func(recs []vAofRec) {
+		for _, rc := range recs {
+			copy(l.buf, rc.buf)
+			_ = l.Decode()
+			l.data = rc.data
+			if err := f.WriteLock(l); err != nil {
+				panic(err)
+			}
+			if l.AofFlag&AOF_FLAG_CONTAINS_DATA != 0 {
+				if err := f.WriteLockData(l); err != nil {
+					panic(err)
+				}
+			}
+		}
+	}
+	put(recsA)
+	realFile := f.file
+	ro, err := os.Open(path)
+	if err != nil {
+		panic(err)
+	}
+	f.file = ro
+	ferr := f.Flush()
+	f.file = realFile
+	_ = ro.Close()
+	if ferr == nil {
+		panic("aofFailedFlush: the sabotaged flush did not fail")
+	}
+	put(recsB)
+	if err := f.Flush(); err != nil {
+		panic(err)
+	}
+	_ = f.Close()
+	img := vReadImg(dir, name)
+	op := fmt.Sprintf("aofflusherr %d %s %s", cfg, vAofRecsString(recsA), vAofRecsString(recsB))
+	e.out.emit(op, img.String())
+	got, status := e.load(dir, []string{name}, cfg, now)
+	e.out.emit(vAofLoadOp([]vAofFileImg{img}, cfg, now), vAofRecsString(got)+";"+status)
+	ok := status == "ok" && len(got) == len(recsB)
+	for i := 0; ok && i < len(recsB); i++ {
+		ok = vAofRecEq(got[i], recsB[i])
+	}
+	if !ok {
+		e.monitor("C08:failed-flush-mispairs-values", "after a Flush whose record write failed, the records written next through the same AofFile are not recovered with their own values",
+			map[string]interface{}{"op": op, "files": img.String(), "delivered": vAofRecsString(got), "status": status})
+	}
+}
+
 func vAofGenHistory(r *rand.Rand, e *vAofEnv, it int, long bool) *vAofHistory {
 	h := &vAofHistory{now: 1700000000 + int64(r.Intn(1000000))}
 	cfgs := []uint{64, 128, 192, 4096, 100}
@@ -557,6 +631,9 @@ func init() {
 		for it := 0; it < vEnvInt("VERIF_LONG", 1); it++ {
 			h := vAofGenHistory(r, e, 2*it, true)
 			e.aofReadHistory(r, h, 0)
+		}
+		for it := 0; it < vEnvInt("VERIF_FLUSHERR", 6); it++ {
+			e.aofFailedFlush(r, it)
 		}
 	}
 }
